@@ -16,6 +16,10 @@ partial def toEvents : List Line → List (Option Ev × String) → List (Option
     let bad (_ : Unit) := toEvents rest ((none, l.raw) :: acc)
     match l.site with
     | "sl.lock" | "ag.yield" | "latch.count_down" | "latch.inlock" => toEvents rest acc
+    -- agent=task runs (follow-up C09p): trailing statistics line of the task agent (real suspensions,
+    -- resumes that hit a still-active task; timing dependent) and the marker of a run that fell back
+    -- to the OS-thread agent; `tk.spurious` / `tk.lost` stay unparsed (reject) and fail a monitor
+    | "tk.stat" | "tk.fallback" => toEvents rest acc
     | "inv.wait" => push (.inv t .wait)
     | "inv.try" => push (.inv t .tryWait)
     | "inv.cd" => if l.a < 0 then bad () else push (.inv t (.cd l.a.toNat))
@@ -78,6 +82,9 @@ def monStep (m : Mon) (l : Line) : Mon :=
     else m
   | "ag.suspend" => { m with parked := upd m.parked t true }
   | "ag.woke" => { m with parked := upd m.parked t false }
+  | "tk.spurious" => { m with viol := s!"task {t}: the suspension of the pika task ended although no resume had been issued (spurious wake-up of the task agent)" :: m.viol }
+  | "tk.diff" => { m with viol := s!"the log of the run on pika tasks differs from the log of the run of the same case on OS threads (first difference at line {l.a}): the behaviour depends on the kind of agent" :: m.viol }
+  | "tk.lost" => { m with viol := s!"task {t}: resumed {l.a} time(s) through pika's task agent but the task stays suspended and nothing in the runtime can wake it (lost wake-up of the task agent)" :: m.viol }
   | "ret" =>
     let op := m.curOp t
     let cnt := m.init - m.decs
